@@ -91,6 +91,9 @@ BOXES = {
     "u3": [[0.0, 1.0], [-1.0, 1.0], [2.0, 4.0]],
 }
 
+# boxes whose end points are not dyadic: midpoints, widths and centres are rounded, "x lies in the cell" is no longer exact
+ND_BOXES = {1: [[0.1, 0.7]], 2: [[0.1, 0.7], [0.2, 1.1]], 3: [[0.1, 0.7], [0.2, 1.1], [-1.0 / 3.0, 2.0 / 3.0]]}
+
 R2 = (0.0, 1.0)
 R3 = (0.0, 1.0, -1.0)
 R3n = (0.0, -1.0, -0.5)
